@@ -9,6 +9,13 @@ VARIABLE l
 vars == <<l>>
 
 Bad(r) ==
+  IF r.site = "ClusterEncoder" THEN
+     \* what a cluster node received, request by request, is what was sent: as many commands, the same argument lengths, the
+     \* same bytes (a request the node could not parse is missing or cut)
+     (IF Len(r.got) # Len(r.sent) THEN {"C12_CommandCount"} ELSE {})
+     \cup (IF Len(r.got) = Len(r.sent) /\ r.got # r.sent THEN {"C12_ArgumentLengths"} ELSE {})
+     \cup (IF ~r.same THEN {"C12_ArgumentBytesAltered"} ELSE {})
+  ELSE
   LET n == Len(r.cmds) IN
   (IF Len(r.obs) # n THEN {"C12_CommandCount"} ELSE {})
   \cup (IF \E i \in 1..Len(r.obs) : i <= n /\ r.obs[i].lens # r.cmds[i] THEN {"C12_ArgumentLengths"} ELSE {})
